@@ -162,7 +162,9 @@ def run(cfg, w):
         return
     shape = tuple(lens[l] for l in xd)
     X = w.arr("x", shape)
-    x = FlodymArray(dims=make_dimset(xd, lens, dims), values=X.copy(), name="xx")
+    from svx.configs import relayout
+
+    x = FlodymArray(dims=make_dimset(xd, lens, dims), values=relayout(X.copy(), sum(map(ord, cfg["key"])) % 3), name="xx")
     if h == "tuple_key":
         tup = [tuple(t) for t in cfg["tup"]]
         key = tuple(dims[l].items[i] for l, i in tup)
